@@ -198,23 +198,37 @@ def translate() -> tuple[str, dict]:
     hdr_fmts = [fmt for _, fmt in head_sites]
     if not hdr_fmts or hdr_fmts[0] != '<III':
         raise TranslateError(f'load_dirfile: header format {hdr_fmts!r} not recognised')
-    # FileInfo(self, directory, file, ext, crc, arch_ind, offset, arch_len, dirfile.read(index_len))
+    # FileInfo(self, directory, file, ext, crc, arch_ind, offset, arch_len, dirfile.read(index_len)) — matched by the ROLE of each
+    # unpack target (position in the format), not by the names of the locals
     fi = _calls(load, lambda c: isinstance(c.func, ast.Name) and c.func.id == 'FileInfo')
-    if len(fi) != 1:
+    if len(fi) != 1 or fi[0].keywords:
         raise TranslateError('load_dirfile: FileInfo(...) construction not recognised')
     fi_args = [ast.unparse(a) for a in fi[0].args]
+    t_crc, t_plen, t_idx, t_off, t_alen, t_end = read_fields if len(read_fields) == 6 else [None] * 6
+    fors = [n for n in ast.walk(load) if isinstance(n, ast.For) and isinstance(n.target, ast.Name)]
+    loop_vars = [f.target.id for f in sorted(fors, key=lambda f: f.lineno)]       # ext, directory, file (outermost first)
+    file_obj = ast.unparse(entry_sites[0][0].args[-1].func.value) if entry_sites[0][0].args and isinstance(entry_sites[0][0].args[-1], ast.Call) \
+        and isinstance(entry_sites[0][0].args[-1].func, ast.Attribute) else ast.unparse(entry_sites[0][0].args[-1]) if entry_sites[0][0].args else None
     # sentinel tests
     read_dir_sentinel = read_term = None
     zero_len_resets_offset = False
+
+    def cval(r):
+        return _const_int(_resolve(r, mconsts))
     for n in ast.walk(load):
-        if isinstance(n, ast.If) and isinstance(n.test, ast.Compare) and len(n.test.ops) == 1 and isinstance(n.test.left, ast.Name):
-            l, o, r = n.test.left.id, n.test.ops[0], n.test.comparators[0]
-            if l == 'arch_ind' and isinstance(o, ast.Eq) and ast.unparse(n.body[0]) == 'arch_ind = None':
-                read_dir_sentinel = consts[r.id] if isinstance(r, ast.Name) and r.id in consts else _const_int(r)
-            elif l == 'arch_len' and isinstance(o, ast.Eq) and _const_int(r) == 0 and ast.unparse(n.body[0]) == 'offset = 0':
-                zero_len_resets_offset = True
-            elif l == 'end' and isinstance(o, ast.NotEq) and isinstance(n.body[0], ast.Raise):
-                read_term = _const_int(r)
+        if isinstance(n, ast.If) and isinstance(n.test, ast.Compare) and len(n.test.ops) == 1 and not n.orelse:
+            l, o, r = n.test.left, n.test.ops[0], n.test.comparators[0]
+            if not isinstance(l, ast.Name) and isinstance(r, ast.Name):
+                l, r = r, l
+            if not isinstance(l, ast.Name):
+                continue
+            l = l.id
+            if l == t_idx and isinstance(o, ast.Eq) and len(n.body) == 1 and ast.unparse(n.body[0]) == f'{t_idx} = None':
+                read_dir_sentinel = cval(r)
+            elif l == t_alen and isinstance(o, ast.Eq) and len(n.body) == 1 and ast.unparse(n.body[0]) == f'{t_off} = 0':
+                zero_len_resets_offset = cval(r) == 0
+            elif l == t_end and isinstance(o, ast.NotEq) and isinstance(n.body[0], ast.Raise):
+                read_term = cval(r)
     if read_dir_sentinel is None or read_term is None:
         raise TranslateError('load_dirfile: sentinel tests (arch_ind == DIR_ARCH_INDEX / end != 0xffff) not recognised')
 
@@ -229,19 +243,37 @@ def translate() -> tuple[str, dict]:
     write_term = _const_int(_resolve(entry_pack[0][1][5], _local_env(wdir), mconsts))
     if head_pack[0][0] != '<III' or ast.unparse(head_pack[0][1][0]) != 'VPK_SIG':
         raise TranslateError('write_dirfile: header pack not recognised')
+    # the loop variable that holds the FileInfo: `for <name>, <info> in sorted(files.items(), ...)` (innermost loop)
+    wfors = sorted([n for n in ast.walk(wdir) if isinstance(n, ast.For)], key=lambda f: f.lineno)
+    if len(wfors) != 3 or not (isinstance(wfors[2].target, ast.Tuple) and len(wfors[2].target.elts) == 2 and isinstance(wfors[2].target.elts[1], ast.Name)):
+        raise TranslateError('write_dirfile: three nested loops, the innermost over (name, info) pairs, expected')
+    iv = wfors[2].target.elts[1].id
+    # the archive index written: `X = DIR_ARCH_INDEX if info.arch_index is None else info.arch_index` as if/else or conditional expression
     write_dir_sentinel = None
+    idx_expr = write_fields[2]
+
+    def sentinel_choice(test, a_none, a_some):
+        src = ast.unparse(test)
+        if src == f'{iv}.arch_index is not None':
+            a_none, a_some = a_some, a_none
+        elif src != f'{iv}.arch_index is None':
+            return None
+        return _const_int(_resolve(a_none, mconsts)) if ast.unparse(a_some) == f'{iv}.arch_index' else None
     for n in ast.walk(wdir):
-        if isinstance(n, ast.If) and ast.unparse(n.test) == 'info.arch_index is None' and len(n.body) == 1 and len(n.orelse) == 1:
-            b, e = n.body[0], n.orelse[0]
-            if isinstance(b, ast.Assign) and ast.unparse(b.targets[0]) == 'arch_ind' and ast.unparse(e) == 'arch_ind = info.arch_index':
-                v = b.value
-                write_dir_sentinel = consts[v.id] if isinstance(v, ast.Name) and v.id in consts else _const_int(v)
+        if isinstance(n, ast.If) and len(n.body) == 1 and len(n.orelse) == 1 and all(
+                isinstance(x, ast.Assign) and len(x.targets) == 1 and ast.unparse(x.targets[0]) == idx_expr for x in (n.body[0], n.orelse[0])):
+            write_dir_sentinel = sentinel_choice(n.test, n.body[0].value, n.orelse[0].value)
+        if isinstance(n, ast.Assign) and len(n.targets) == 1 and ast.unparse(n.targets[0]) == idx_expr and isinstance(n.value, ast.IfExp):
+            write_dir_sentinel = sentinel_choice(n.value.test, n.value.body, n.value.orelse)
+    ix = entry_pack[0][1][2]
+    if write_dir_sentinel is None and isinstance(ix, ast.IfExp):
+        write_dir_sentinel = sentinel_choice(ix.test, ix.body, ix.orelse)
+        idx_expr = None
     if write_dir_sentinel is None:
         raise TranslateError('write_dirfile: arch_index None -> DIR_ARCH_INDEX site not recognised')
-    want_w = ['info.crc', 'len(info.start_data)', 'arch_ind', 'info.offset', 'info.arch_len']
-    want_r = ['crc', 'index_len', 'arch_ind', 'offset', 'arch_len', 'end']
-    fields_match = write_fields[:5] == want_w and read_fields == want_r and \
-        fi_args == ['self', 'directory', 'file', 'ext', 'crc', 'arch_ind', 'offset', 'arch_len', 'dirfile.read(index_len)']
+    want_w = [f'{iv}.crc', f'len({iv}.start_data)', write_fields[2], f'{iv}.offset', f'{iv}.arch_len']
+    fields_match = write_fields[:5] == want_w and len(read_fields) == 6 and len(set(read_fields)) == 6 and len(loop_vars) == 3 and \
+        fi_args == ['self', loop_vars[1], loop_vars[2], loop_vars[0], t_crc, t_idx, t_off, t_alen, f'{file_obj}.read({t_plen})']
 
     # (null strings: translate/c13_nullstr.py)
 
